@@ -29,8 +29,11 @@ def build(ctx):
     exes = ctx.build_many([
         dict(name="h11", sources=["h11.cpp"], flags=flags, opt="-O2", asan=True, ndebug=True),
         dict(name="h11d", sources=["h11.cpp"], flags=flags, opt="-O2", asan=True, ndebug=False),
+        # hook H9: a 256-byte stash buffer is reallocated every few add_item() calls - whatever points into the stash across an
+        # insertion (cached relation, member pointer) dangles within a three-relation history and ASan sees the access
+        dict(name="h11s", sources=["h11.cpp"], flags=flags + ["-DOSMIUM_VERIF_ITEM_STASH_BUFFER_SIZE=256"], opt="-O2", asan=True, ndebug=True),
     ])
-    return {"h11": exes[0], "h11d": exes[1]}
+    return {"h11": exes[0], "h11d": exes[1], "h11s": exes[2]}
 
 
 ASAN = {"ASAN_OPTIONS": "detect_leaks=0:abort_on_error=0:allocator_may_return_null=1:quarantine_size_mb=16"}
@@ -41,7 +44,7 @@ def run(ctx):
     if getattr(ctx, "build_only", False):
         return
     import time
-    plan = [("h11", "long"), ("h11d", "long"), ("h11d", "release"), ("h11", "mp"), ("h11d", "mp"), ("h11", "main"), ("h11d", "main")]
+    plan = [("h11", "long"), ("h11d", "long"), ("h11d", "release"), ("h11", "mp"), ("h11d", "mp"), ("h11", "main"), ("h11d", "main"), ("h11s", "mp"), ("h11s", "main")]
     for name, part in plan:
         t = time.time()
         ctx.run_harness(exes[name], ["--part", part], shards=16, env=ASAN)
